@@ -29,7 +29,7 @@ ASSUMPTIONS = [
 ]
 
 
-def make_warmup_run(n, W):
+def make_warmup_run(n, W, dynamic=False):
     def build(ctx, flags_concrete=None):
         state = {"draw": 0, "fhat": []}
 
@@ -50,7 +50,8 @@ def make_warmup_run(n, W):
             state["fhat"].append(Fraction(nfin, x.shape[0]))
             return sarr(out)
 
-        smp = Sampler(lambda u: u, loglike, n_dim=1, n_particles=n, ess_ratio=float(W + 2), vectorize=True, clustering=False)
+        smp = Sampler(lambda u: u, loglike, n_dim=1, n_particles=n, ess_ratio=float(W + 2), vectorize=True, clustering=False,
+                      volume_variation=(0.5 if dynamic else None))
         return smp, state
 
     def harness(ctx: PathCtx):
@@ -58,8 +59,9 @@ def make_warmup_run(n, W):
         smp._core._initialize_fresh()
         stub = RandomStub(Draws(ctx), max_calls=3 * W + 2)
         from vf.props.c05 import max_model
+        vv_stub = (lambda u, w: 0.25) if dynamic else rw_mod.volume_variation  # warm-up never advances: the metric value is irrelevant
         with patched(sm_mod, np=NpProxy(exact_log=True)), \
-                patched(rw_mod, np=NpProxy(exact_log=True, overrides={"max": max_model, "isfinite": lambda v: True})), \
+                patched(rw_mod, np=NpProxy(exact_log=True, overrides={"max": max_model, "isfinite": lambda v: True}), volume_variation=vv_stub), \
                 patched(mutate_mod, np=NpProxy(random=stub, exact_log=True, overrides={"isinf": isinf_model})):
             for it in range(W):
                 smp.sample()
@@ -97,7 +99,8 @@ def make_warmup_run(n, W):
                 cnt["i"] += 1
                 out.append(-np.inf if (j < len(flags) and flags[j]) else -0.5 * (j % 3))
             return np.array(out)
-        smp = Sampler(lambda u: u, loglike, n_dim=1, n_particles=n, ess_ratio=float(W + 2), vectorize=True, clustering=False)
+        smp = Sampler(lambda u: u, loglike, n_dim=1, n_particles=n, ess_ratio=float(W + 2), vectorize=True, clustering=False,
+                      volume_variation=(0.5 if dynamic else None))
         smp._core._initialize_fresh()
         s0 = np.random.get_state()
         np.random.seed(0)
@@ -124,7 +127,7 @@ def make_warmup_run(n, W):
                 "what": f"{W} warm-up iterations of {n} draws with -inf pattern {flags}: supported fractions {fh}, "
                         f"recorded exp(logz) = {[round(math.exp(z), 6) for z in lz]}"}
 
-    return Obligation(f"warmup-n{n}-W{W}", harness, replay=replay,
+    return Obligation(f"warmup-n{n}-W{W}{'-dynamic' if dynamic else ''}", harness, replay=replay,
                       encodes=[core_mod.SamplerCore.execute_iteration, rw_mod.Reweighter.run, mutate_mod.Mutator.run,
                                sm_mod.StateManager.compute_logw_and_logz, sm_mod.StateManager.commit_current_to_history],
                       bounds=f"n_particles={n}, W={W} consecutive warm-up iterations, every -inf pattern with >= 1 finite draw per batch, "
@@ -135,5 +138,6 @@ def make_warmup_run(n, W):
 
 def obligations(tier):
     if tier == "quick":
-        return [make_warmup_run(2, 2), make_warmup_run(2, 3), make_warmup_run(3, 2)]
-    return [make_warmup_run(2, 2), make_warmup_run(2, 3), make_warmup_run(3, 2), make_warmup_run(3, 3), make_warmup_run(2, 4)]
+        return [make_warmup_run(2, 2), make_warmup_run(2, 3), make_warmup_run(3, 2), make_warmup_run(2, 3, dynamic=True)]
+    return [make_warmup_run(2, 2), make_warmup_run(2, 3), make_warmup_run(3, 2), make_warmup_run(3, 3), make_warmup_run(2, 4),
+            make_warmup_run(2, 3, dynamic=True), make_warmup_run(3, 2, dynamic=True)]
